@@ -57,8 +57,40 @@ static void mutex_setup(void) {
   }
 }
 
+// "lockcrowd m n": the fiber takes mutex m, starts n further fibers that each lock it, run the critical section and unlock,
+// lets them all run into the held mutex, and releases it (any number of blocked waiters; anonymous fibers 1000, 1001, ...)
+static int crowd_next_id = 1000;
+static long crowd_done;
+static void* crowd_locker(void* p) {
+  int m = (int)((intptr_t)p & 7), id = (int)((intptr_t)p >> 3);
+  fiber_mutex_lock(&mtx[m]);
+  gh_acquire(m, id, 0);
+  critical(0, m, 0, 0);
+  gh_release(m, id);
+  fiber_mutex_unlock(&mtx[m]);
+  gh_note((int*)&crowd_done);
+  return 0;
+}
+
 static int mutex_do_op(int idx, op_t* op) {
   int m = op->a % NM;
+  if (!strcmp(op->name, "lockcrowd")) {
+    fiber_mutex_lock(&mtx[m]);
+    gh_acquire(m, idx, 0);
+    long v = cell[m];
+    gh_check_visible(m, idx, v);
+    for (int i = 0; i < op->b; i++) {
+      fiber_t* f = fiber_create(8192, &crowd_locker, (void*)(((intptr_t)crowd_next_id++ << 3) | m));
+      if (!f) vs_violation("engine_limit", "fiber_create failed");
+      fiber_detach(f);
+    }
+    for (int i = 0; i < 3; i++) fiber_yield();
+    gh_note(&contended_locks);
+    cell[m] = v + 1;
+    gh_release(m, idx);
+    fiber_mutex_unlock(&mtx[m]);
+    return 1;
+  }
   if (!strcmp(op->name, "lock")) {
     int before = g_fiber_switches(idx);
     fiber_mutex_lock(&mtx[m]);
@@ -94,6 +126,7 @@ GHOST static void mutex_final(void) {
     if (mtx[i].counter != 1) vs_violation("value_mismatch", "mutex %d counter is %d after all fibers finished (expected 1)", i, (int)mtx[i].counter);
     if (cell[i] != cs_count[i]) vs_violation("value_mismatch", "mutex %d protected cell is %ld after %ld critical sections", i, cell[i], cs_count[i]);
   }
+  vs_label_max("crowd", (uint64_t)(crowd_next_id - 1000));
   vs_label_add("contended_locks", contended_locks);
   vs_label_add("trylock_ok", try_ok);
   vs_label_add("trylock_fail", try_fail);
